@@ -55,6 +55,9 @@ pub const LEX_CONTEXTS: &[(&str, &str)] = &[
     ("trailing", "package p; interface I {} <X>"),
     ("const_value", "package p; interface I { const String S = <X>; }"),
     ("import", "package p; import <X>; interface I {}"),
+    ("leading", "<X>package p; interface I { void f(); const String S = \"€\"; }"),
+    ("leading_line", "<X>\npackage p; enum E { A }"),
+    ("member_name", "package p; interface I { int <X>(); int <X>(in int a); }"),
 ];
 
 pub const LEXEMES: &[&str] = &[
@@ -65,7 +68,8 @@ pub const LEXEMES: &[&str] = &[
     "4294967296", "99999999999999999999", "\"abc\"", "\"abc", "abc\"", "\"a\nb\"", "\"a\rb\"", "\"\"", "\"\"\"", "\"é漢😀\"", "\"/*\"", "\"//\"",
     "/* unterminated", "/*/", "/**/", "/***/", "/* a */", "/** d */", "// eof", "//", "/", "*/", "é", "a-b", "a - b", "-", "@", "@1", "@a", "@a.b", "@ a",
     "a..b", ".a", "a.", "a.b", "a . b", "a.b.c", "_", "__", "_1", "a1", "1a", "a\u{a0}b", "a\u{2028}b", "x\u{301}", "\u{feff}", "\0", "#", "'a'", "a b",
-    "a/**/b", "a//c\nb", "int[]", "int []", "int[ ]", "int[][]", "List<int>", "List<>", "List<List<int>>", "Map<String,int>", "Map<String>", "{}", "{1}",
+    "a/**/b", "a//c\nb", "TRUE", "FALSE", "True", "Interface", "ENUM", "Parcelable", "OneWay", "Package", "Import", "IN", "Void", "null", "\u{feff}\u{feff}", "\u{200b}",
+    "\u{feff}x", "int[]", "int []", "int[ ]", "int[][]", "List<int>", "List<>", "List<List<int>>", "Map<String,int>", "Map<String>", "{}", "{1}",
     "{1 2}", "{1,}", "{,}", "A.B", "A.B.C", "IBinder", "android.os.IBinder", "", " ", "\n", "\r\n",
 ];
 
